@@ -88,7 +88,7 @@ class FibRun:
                 info = self.intinfo.get(i)
                 if info is None or enc.Name.to_str(name) != enc.Name.to_str(info['fullname']):
                     self.bg.append('handler-got-wrong-name')
-                elif (app_param is None) != (not info['it']['params']):
+                elif (app_param is None) != (not (info['it']['params'] or info['it']['signed'])):
                     self.bg.append('handler-got-wrong-app-param')
         else:
             def on_int(name, param, app_param, **kw):
@@ -186,11 +186,13 @@ class FibRun:
             signer = None
             app_param = None
             if it['params'] or it['signed']:
-                app_param = b'P%d' % i
+                app_param = b'' if it.get('pe') else b'P%d' % i
             if it['signed']:
                 from ndn.security.signer import DigestSha256Signer
                 signer = DigestSha256Signer()
-            w, fullname = enc.make_interest(nm(it['name']), enc.InterestParam(lifetime=it['life'] * TICK_MS, nonce=NONCE0 + i),
+            # life 400 ticks stands for "no InterestLifetime element": the default of 4000 ms applies
+            life_ms = None if it['life'] == 400 else it['life'] * TICK_MS
+            w, fullname = enc.make_interest(nm(it['name']), enc.InterestParam(lifetime=life_ms, nonce=NONCE0 + i),
                                             app_param, signer=signer, need_final_name=True)
             w = bytearray(w)
             if (it['params'] or it['signed']) and not it['digOk']:
@@ -203,7 +205,7 @@ class FibRun:
             self.intinfo[i] = {'it': it, 'fullname': fullname, 'wire': w}
             tok = TOKENS[it['tok']]
             if ev['env'] != 'bare':
-                w = lp_wrap(w, token=tok, extra=(ev['env'] == 'lph'))
+                w = lp_wrap(w, token=tok, extra=(ev['env'] == 'lph'), odd=(ev['env'] == 'lpo'))
             self.cur = i
             ex = deliver(self.sess, self.face, w, timers_now=False)
             self.cur = None
